@@ -162,7 +162,12 @@ impl<'t> Ctx<'t> {
         let errs = elem::with(|l| std::mem::take(&mut l.errors));
         if self.on.c06 {
             for (c, m) in errs {
-                self.viol(c, m);
+                self.viol(c, m.clone());
+                if self.on.c07 && self.had_failure {
+                    // "nothing is leaked or double-dropped" after an allocation failure
+                    let c7 = c.replace("C06/", "C07/ledger-");
+                    self.viol(&c7, m);
+                }
             }
         }
         let herrs: Vec<(&'static str, String)> = heap::with(0, |h| std::mem::take(&mut h.errors));
@@ -612,6 +617,9 @@ pub fn exec_common<E: Elem, V: VecApi<E>>(ctx: &mut Ctx, v: &mut V, m: &mut Vec<
                     if matches!(r, Outcome::Ok(())) && !src.is_empty() && ctx.on.c08 {
                         ctx.viol("C08/append-left-source", format!("append(&mut Vec) left {} elements in the source", src.len()));
                     }
+                    if matches!(r, Outcome::AllocFailed) && src.len() != n && (ctx.on.c07 || ctx.on.c08) {
+                        ctx.viol(if ctx.on.c07 { "C07/append-emptied-source-on-failure" } else { "C08/append-emptied-source-on-failure" }, format!("append(&mut Vec) failed but the source went from {n} to {} elements", src.len()));
+                    }
                     drop(src);
                     r
                 }
@@ -700,13 +708,17 @@ pub fn exec_common<E: Elem, V: VecApi<E>>(ctx: &mut Ctx, v: &mut V, m: &mut Vec<
         }
         K_DEDUP_BY => {
             let md = 1 + op.a[0] as u32 % 4;
-            expect.dedup_by(|a, b| *a % md == *b % md);
+            // an equivalence (same residue) or a non-transitive relation (values close to each other): with the latter
+            // it matters that an element is compared with the last *kept* element, as std does
+            let close = op.a[1] % 2 == 1;
+            let same = move |a: u32, b: u32| if close { a.abs_diff(b) <= md } else { a % md == b % md };
+            expect.dedup_by(|a, b| same(*a, *b));
             ctx.call(op, drop_panics, || {
                 Ok(v.v_dedup_by(&mut |a, b| {
                     elem::access(a.id(), "dedup_by");
                     elem::access(b.id(), "dedup_by");
                     elem::tick();
-                    a.val() % md == b.val() % md
+                    same(a.val(), b.val())
                 }))
             })
         }
